@@ -22,6 +22,7 @@ narrowing conversion I256→I192 / I384→I256 rejects the representable value `
 -/
 import RadixModel.Model.Decimal
 import RadixModel.Lemmas.Decimal
+import RadixModel.Lemmas.DecimalRound
 import RadixModel.Generated.DecimalConsts
 
 namespace Radix.Dec
@@ -94,6 +95,44 @@ theorem abs_spec (t : Ty) {a : Int} (ha : t.InRange a) :
     · rw [if_neg hneg, abs_of_nonneg (by omega)]; rfl
 
 example : Ty.dec.InRange (-5) := by decide
+
+/-! ## Truncation toward zero -/
+
+/-- `Int.tdiv` (Rust's signed `/`) IS truncation toward zero of the exact quotient `n / b`: the
+remainder is smaller than the divisor in magnitude and has the sign of the dividend (so
+`|q| ≤ |n / b| < |q| + 1` and `q` lies between `0` and `n / b`). -/
+theorem tdiv_is_truncation (n b : Int) (hb : b ≠ 0) :
+    ∃ rem, n = Int.tdiv n b * b + rem ∧ rem.natAbs < b.natAbs ∧
+      (0 ≤ n → 0 ≤ rem) ∧ (n ≤ 0 → rem ≤ 0) := by
+  refine ⟨Int.tmod n b, ?_, ?_, ?_, ?_⟩
+  · have := Int.tmod_add_tdiv_mul n b; omega
+  · rw [Int.natAbs_tmod]; exact Nat.mod_lt _ (Int.natAbs_pos.mpr hb)
+  · exact fun h => Int.tmod_nonneg b h
+  · intro h
+    have := Int.tmod_nonneg b (by omega : 0 ≤ -n)
+    rw [Int.neg_tmod] at this; omega
+
+/-- The truncation is unique: any `q` with such a remainder is `Int.tdiv n b`. -/
+theorem truncation_unique (n b q rem : Int) (hb : 0 < b) (h : n = q * b + rem)
+    (hr : rem.natAbs < b.natAbs) (h1 : 0 ≤ n → 0 ≤ rem) (h2 : n ≤ 0 → rem ≤ 0) :
+    q = Int.tdiv n b := by
+  have hbd := tdiv_bounds n b hb
+  have hrb : -b < rem ∧ rem < b := by omega
+  by_cases h0 : 0 ≤ n
+  · obtain ⟨b1, b2, _⟩ := hbd.1 h0
+    have := h1 h0
+    have e1 : b * (q - Int.tdiv n b) < b * 1 := by rw [Int.mul_sub, Int.mul_comm b q, Int.mul_comm b (Int.tdiv n b)]; omega
+    have e2 : b * (Int.tdiv n b - q) < b * 1 := by rw [Int.mul_sub, Int.mul_comm b q, Int.mul_comm b (Int.tdiv n b)]; omega
+    have := Int.lt_of_mul_lt_mul_left e1 (Int.le_of_lt hb)
+    have := Int.lt_of_mul_lt_mul_left e2 (Int.le_of_lt hb)
+    omega
+  · obtain ⟨b1, b2, _⟩ := hbd.2 (by omega)
+    have := h2 (by omega)
+    have e1 : b * (q - Int.tdiv n b) < b * 1 := by rw [Int.mul_sub, Int.mul_comm b q, Int.mul_comm b (Int.tdiv n b)]; omega
+    have e2 : b * (Int.tdiv n b - q) < b * 1 := by rw [Int.mul_sub, Int.mul_comm b q, Int.mul_comm b (Int.tdiv n b)]; omega
+    have := Int.lt_of_mul_lt_mul_left e1 (Int.le_of_lt hb)
+    have := Int.lt_of_mul_lt_mul_left e2 (Int.le_of_lt hb)
+    omega
 
 /-! ## mul -/
 
@@ -257,5 +296,67 @@ theorem decToPdec_exact {a : Int} (ha : Ty.dec.InRange a) : decToPdec a = .val (
     simp only [Ty.InRange, Ty.bits, minOf, maxOf, InBits, half_192, half_256] at *
     omega
   rw [chk_of_inBits h2]
+
+/-- ACTUAL behaviour of `TryFrom<PreciseDecimal> for Decimal`: the value truncated toward zero to
+18 places iff it lies in `(Decimal::MIN, Decimal::MAX]`, `Err(Overflow)` otherwise; never panics.
+(`Decimal::MIN` itself is lost in the I256→I192 narrowing: finding `narrow-min`.) -/
+theorem pdecToDec_actual {p : Int} (hp : Ty.pdec.InRange p) :
+    pdecToDec p =
+      if minOf 192 < Int.tdiv p (10 ^ 18) ∧ Int.tdiv p (10 ^ 18) ≤ maxOf 192
+      then .val (Int.tdiv p (10 ^ 18)) else .overflow := by
+  have hd : (0 : Int) < 10 ^ 18 := by norm_num
+  have hb := tdiv_bounds p (10 ^ 18) hd
+  generalize hq : Int.tdiv p (10 ^ 18) = q at *
+  have hu : pow10 (Ty.pdec.scale - (18 : Int).toNat) = 10 ^ 18 := by decide
+  have hpin : InBits 256 p := hp
+  unfold InBits minOf maxOf at hpin
+  have hR : IsRounded .toZero (pow10 (Ty.pdec.scale - (18 : Int).toNat)) p (q * 10 ^ 18) := by
+    rw [hu]
+    refine ⟨⟨q, by ring⟩, ?_, ?_⟩
+    · rw [abs_lt]
+      by_cases h0 : 0 ≤ p
+      · have := hb.1 h0; omega
+      · have := hb.2 (by omega); omega
+    · by_cases h0 : 0 ≤ p
+      · have := hb.1 h0
+        rw [abs_of_nonneg h0, abs_of_nonneg (by omega)]; omega
+      · have := hb.2 (by omega)
+        rw [abs_of_nonpos (by omega : p ≤ 0), abs_of_nonpos (by omega)]; omega
+  have hin : Ty.pdec.InRange (q * 10 ^ 18) := by
+    show InBits 256 (q * 10 ^ 18)
+    unfold InBits minOf maxOf
+    by_cases h0 : 0 ≤ p
+    · have := hb.1 h0; omega
+    · have := hb.2 (by omega); omega
+  have hr := checkedRound_of_isRounded .pdec 18 (by norm_num) (by decide) .toZero p _ hp hR hin
+  have hq256 : InBits 256 q := by
+    unfold InBits minOf maxOf
+    have := half_pos 256
+    by_cases h0 : 0 ≤ p
+    · have := hb.1 h0; omega
+    · have := hb.2 (by omega); omega
+  unfold pdecToDec checkedTruncate
+  have e18 : ((Ty.dec.scale : Nat) : Int) = 18 := rfl
+  rw [e18, hr]
+  have h1 : chk 256 ((10 : Int) ^ (Ty.pdec.scale - Ty.dec.scale)) = some (10 ^ 18) :=
+    chk_of_inBits (by decide)
+  simp only [h1]
+  unfold iDiv
+  rw [if_neg (by norm_num), Int.mul_tdiv_cancel q (by norm_num), chk_of_inBits hq256]
+  simp only
+  rw [narrow_signed_spec 256 192 (by norm_num) (by norm_num) q hq256]
+  by_cases h : minOf 192 < q ∧ q ≤ maxOf 192
+  · rw [if_pos h, if_pos h]; rfl
+  · rw [if_neg h, if_neg h]; rfl
+
+example : Ty.pdec.InRange (-(25 * 10 ^ 17)) := by decide
+
+/-- REFUTATION of the full statement for the narrowing conversion: `PreciseDecimal::from(Decimal::MIN)`
+converts back to `Err(Overflow)` although `Decimal::MIN` is representable. -/
+theorem pdecToDec_roundtrip_refuted :
+    ¬ ∀ a, Ty.dec.InRange a → pdecToDec (a * 10 ^ 18) = .val a := by
+  intro h
+  have := h Ty.dec.min (by decide)
+  revert this; decide
 
 end Radix.Dec
